@@ -35,7 +35,7 @@ use yvcommon::util::{opt, opt_usize, seed};
 /// A worker that prints nothing for this long is considered hung on the
 /// program it announced (simulated runs take well under a millisecond of CPU;
 /// the margin is for a heavily loaded machine).
-const STALL_SIM: Duration = Duration::from_secs(8);
+const STALL_SIM: Duration = Duration::from_secs(5);
 /// Real-OS runs have their own per-run timeout (60 s) inside the worker.
 const STALL_REAL: Duration = Duration::from_secs(200);
 
@@ -175,7 +175,7 @@ fn worker_run(args: &[String]) -> i32 {
                     sample = json!({"text": rendered.script, "flags": rendered.flags, "files": files_json(&rendered),
                                     "expected": {"tr": o["tr"], "st": exp_st}, "observed": obs_json(&obs)});
                 }
-                if let Err(why) = verdict {
+                if let Err(mut why) = verdict {
                     // does the difference disappear when the notable input variants are avoided?
                     let mut feat = String::new();
                     if !rendered.feats.is_empty() {
@@ -184,8 +184,14 @@ fn worker_run(args: &[String]) -> i32 {
                         let r2 = rd2.program(&tree, e, t);
                         let obs2 = execute(mode, &r2);
                         runs += 1;
-                        if exec::matches(&exp_tr, exp_st, &obs2, &trap_markers).is_ok() {
-                            feat = rendered.feats[0].to_string();
+                        match exec::matches(&exp_tr, exp_st, &obs2, &trap_markers) {
+                            Ok(()) => feat = rendered.feats[0].to_string(),
+                            // ... or shrink to nothing but the EXIT trap action that was not run?
+                            Err(w2) if w2 == "EXIT trap action not run" => {
+                                feat = rendered.feats[0].to_string();
+                                why = w2;
+                            }
+                            Err(_) => {}
                         }
                     }
                     if fails.len() < 2 {
